@@ -20,5 +20,47 @@ tab='| property | disposition | what failed |\n|---|---|---|\n'+'\n'.join(rows)
 s=re.sub(r'<!-- FINDINGS-BEGIN -->.*?<!-- FINDINGS-END -->','<!-- FINDINGS-BEGIN -->\n'+tab.replace('\\','\\\\')+'\n<!-- FINDINGS-END -->',s,flags=re.S)
 seeds=subprocess.run(['python3','/verif/tools/seed_table.py'],capture_output=True,text=True).stdout
 s=re.sub(r'<!-- SEEDS-BEGIN -->.*?<!-- SEEDS-END -->','<!-- SEEDS-BEGIN -->\n'+seeds.replace('\\','\\\\')+'<!-- SEEDS-END -->',s,flags=re.S)
+
+# status table (from the evidence files of the last run of each check)
+WHAT={
+ 'C01':'round trips Encoder->Decoder: strings over a 16-symbol alphabet + threshold family, mailbox names (short + long across the UTF-7 buffer sizes), flags, numbers, number sets, list trees; 16 configurations',
+ 'C02':'client commands through a real client/server pair into a recording backend, 7 configurations',
+ 'C03':'backend-supplied response data through a real server into the real client, 3 configurations',
+ 'C04':'raw command streams: 15 templates x argument encodings x literal sizes (incl. 2^32-class, 2^62, 2^63-1) x payload classes x anomalies x backend answers to APPEND, pairs/triples, AUTHENTICATE, IDLE, rejected lines',
+ 'C05':'explicit-state BFS of the real server: 12 configurations x 4 variants x 85 events to closure + un-merged histories',
+ 'C06':'every byte offset x {EOF, reset} of 27 transcripts, write faults, mutations, raw strings, nesting families, the C04 stream family; end-of-run goroutine census',
+ 'C07':'BFS on the real tracker behind a real Conn: closed search + bounded depth + un-merged histories',
+ 'C08':'BFS over 2 sessions on server + in-memory backend, views compared after every step',
+ 'C09':'Part A: BFS over command histories of 2 sessions vs the reference mailbox model; Part B: SEARCH / FETCH section / LIST query spaces and the saved-search life cycle',
+ 'C10':'fault scenarios (transcripts x every byte offset x 4 fault kinds, write faults) x schedules of the instrumented client; delay-bounded second pass',
+ 'C11':'grammar-derived byte streams x 6 variants in resource-limited worker processes; growth families',
+ 'C12':'server behaviours (pipelines of 32 command kinds x outcomes x response interleavings; unilateral sequences), client state compared after every line',
+ 'C13':'concurrent-caller scenarios x {preemption, delay} bounding + exhaustive data-race pass',
+ 'C14':'2-3 sessions on server + in-memory backend: all ordered command pairs, lock-hygiene family, histories x {delay, preemption} bounding + data-race pass',
+ 'C15':'BFS over set operations to closure + un-merged sequences + texts',
+ 'C16':'every string up to the bound over derived alphabets, every chunking of source and destination',
+ 'C17':'segmentations of the STARTTLS boundary with real crypto/tls on both sides, policy matrix',
+ 'C18':'legality: capability x enablement x 24 commands x 21-string alphabet; synchronisation scenarios x schedules',
+ 'C19':'And pairs/triples vs reference matcher; SEARCH key sequences through the real parser; the in-memory backend matcher on combined criteria',
+ 'C20':'every (name, pattern, reference, delimiter) up to the length bound vs compiled regexp',
+}
+import os
+fixed={};known={}
+for l in open('/verif/known_findings.txt'):
+    m=re.match(r'(fixed|known): property=(C\d+)',l)
+    if m: (fixed if m.group(1)=='fixed' else known).setdefault(m.group(2),0); (fixed if m.group(1)=='fixed' else known)[m.group(2)]+=1
+rows=[]
+for i in range(1,21):
+    pid='C%02d'%i
+    try: e=json.load(open(f'/verif/evidence/{pid}.json'))
+    except Exception: continue
+    c=e.get('coverage',{})
+    def n(k):
+        v=c.get(k,0)
+        return f'{v:,}' if isinstance(v,int) else str(v)
+    fk=f"{fixed.get(pid,0)} fixed"+(f", {known[pid]} known" if pid in known else '')
+    rows.append(f"| {pid} | {e.get('level','')} | {WHAT[pid]} | {e.get('tier','')} | {n('evaluations')} | {n('states')} / {n('transitions')} | {c.get('exhaustive')} | {e.get('wall_s',0):.0f} | {fk} |")
+tab='| id | level | what is enumerated | tier of the evidence file | evaluations | states / transitions | all bounds completed | wall s | defects |\n|---|---|---|---|---|---|---|---|---|\n'+'\n'.join(rows)
+s=re.sub(r'<!-- STATUS-BEGIN -->.*?<!-- STATUS-END -->',lambda m:'<!-- STATUS-BEGIN -->\n'+tab+'\n<!-- STATUS-END -->',s,flags=re.S)
 open(p,'w').write(s)
-print("findings rows:",len(rows))
+print("rows:",len(rows))
